@@ -34,7 +34,12 @@ class C19(Prop):
         "_synchronize_workflows/is_recovering/_update_request through generated histories interleaved with scheduler status "
         "changes (all Status values) and comparing every attach/update/refuse decision with the model, and by engine runs "
         "in which 2..6 jobs of a diamond or scatter fail at the same moment after one loss of all data, under seeded "
-        "permuting event loops; oracle from the property text (completion, outputs, producer executed once per loss).")
+        "permuting event loops; oracle from the property text (completion, outputs, producer executed once per loss). "
+        "The ORDER in which _recover takes the request locks is covered by the theorem only: the check does not detect "
+        "the removal of sorted(..., key=id) (tried as a mutant and missed), because the unsorted list is the iteration "
+        "order of a set of job names, which CPython already makes the same in every recovery for the same names except "
+        "under hash collisions (13-wide scatters under PYTHONHASHSEED=0 showed no flip), so no opposite acquisition orders "
+        "and no deadlock materialise in engine runs.")
     LEVEL_NOTE = (
         "Partial: the delivery clause (attached recoveries receive the regenerated tokens through InterWorkflowPort "
         "boundary rules) is not proved, only exercised by the engine runs; the lock model abstracts a critical section to "
